@@ -11,6 +11,7 @@ import Drx.SndSpec
 import DrxProofs.Py
 import DrxProofs.Snd
 import DrxProofs.SndMulti
+import DrxProofs.SndLayout
 namespace Drx.C07
 open Drx Drx.Snd Drx.SndSpec
 
@@ -50,6 +51,80 @@ theorem unpack_formats :
 theorem defaults_are_standard_header : St.init.channels = Header.standard.channels ∧ St.init.bits = Header.standard.bits := by
   decide
 
+/-! ## the readers of the model ARE the generic reader over the field layouts regenerated from the source
+
+  `Gen.SndLayouts` (harness/gen_snd_layouts.py, Python `ast` of format.py and bufferCmd.py, regenerated every run) lists
+  offset, width and signedness of every `struct.unpack` of the format word, the two prefixes, the data-type and command
+  records, the 22 common bytes of the sound header and the extended tail, plus the sizes the index advances by. A changed
+  offset / width / sign in the Python source changes the generated list and breaks the corresponding equality below. -/
+
+theorem format_word_reader_is_generated_layout (d : Bytes) :
+    parseSndFmt d =
+      (match Layout.readLayout .be d 0 Gen.SndLayouts.fmtWord with
+       | .error e => .error e
+       | .ok [ft] => if ft = 1 then parseSndFmt1 d else if ft = 2 then parseSndFmt2 d else .error .value
+       | .ok _ => .error .other) := parseSndFmt_eq_layout d
+
+theorem format1_prefix_reader_is_generated_layout (d : Bytes) :
+    parseSndFmt1 d =
+      (match Layout.readLayout .be d 0 Gen.SndLayouts.fmt1Prefix with
+       | .error e => .error e
+       | .ok [n] =>
+         (match parseDataTypes d n.toNat Gen.SndLayouts.fmt1LoopStart with
+          | .error e => .error e
+          | .ok (dts, idx) =>
+            match parseSndCommands d idx with
+            | .error e => .error e
+            | .ok cmds => .ok ⟨1, dts, -1, cmds⟩)
+       | .ok _ => .error .other) := parseSndFmt1_eq_layout d
+
+theorem format2_prefix_reader_is_generated_layout (d : Bytes) :
+    parseSndFmt2 d =
+      (match Layout.readLayout .be d 0 Gen.SndLayouts.fmt2Prefix with
+       | .error e => .error e
+       | .ok [rc] =>
+         (match parseSndCommands d Gen.SndLayouts.fmt2CommandsAt with
+          | .error e => .error e
+          | .ok cmds => .ok ⟨2, [], rc, cmds⟩)
+       | .ok _ => .error .other) := parseSndFmt2_eq_layout d
+
+theorem data_type_record_reader_is_generated_layout (d : Bytes) (n idx : Nat) :
+    parseDataTypes d (n + 1) idx =
+      (match Layout.readLayout .be d idx Gen.SndLayouts.dataTypeRecord with
+       | .error e => .error e
+       | .ok [t, o] =>
+         (match parseDataTypes d n (idx + Gen.SndLayouts.dataTypeRecordSize) with
+          | .error e => .error e
+          | .ok (rest, e) => .ok (⟨t, o⟩ :: rest, e))
+       | .ok _ => .error .other) := parseDataTypes_eq_layout d n idx
+
+theorem command_count_reader_is_generated_layout (d : Bytes) (idx : Nat) :
+    parseSndCommands d idx =
+      (match Layout.readLayout .be d idx Gen.SndLayouts.commandsCount with
+       | .error e => .error e
+       | .ok [n] => parseCmds d n.toNat (idx + Gen.SndLayouts.commandsLoopStart)
+       | .ok _ => .error .other) := parseSndCommands_eq_layout d idx
+
+theorem command_record_reader_is_generated_layout (d : Bytes) (n idx : Nat) :
+    parseCmds d (n + 1) idx =
+      (match Layout.readLayout .be d idx Gen.SndLayouts.commandRecord with
+       | .error e => .error e
+       | .ok [c, p1, p2] =>
+         (match parseCmds d n (idx + Gen.SndLayouts.commandRecordSize) with
+          | .error e => .error e
+          | .ok rest => .ok (⟨if c < 0 then (0xFFFF + c) + 1 else c, p1, p2⟩ :: rest))
+       | .ok _ => .error .other) := parseCmds_eq_layout d n idx
+
+/-- the sound-header reader (`_get_frames` up to the sample area) at any non-negative offset = `soundHeaderL`, which reads
+    the 22 common bytes and the extended tail through the generated layouts and advances by the generated sizes -/
+theorem sound_header_reader_is_generated_layout (s : St) (n : Nat) (d : Bytes) :
+    soundHeader s (n : Int) d = soundHeaderL s n d := soundHeader_eq_layout s n d
+
+/-- the two single-byte reads (`fdata[idx]`) and the one raw slice of the header sit where the model reads / skips them -/
+theorem sound_header_byte_fields :
+    Gen.SndLayouts.soundHeaderBytes = [⟨"encode", 20, 1, false⟩, ⟨"baseFrequency", 21, 1, false⟩] ∧
+    Gen.SndLayouts.extendedRaw = [(26, 10)] := by decide
+
 /-! ## decoding -/
 
 /-- a non-trivial spec object: format 1 with a data-type record, two null commands with junk parameters, soundCmd,
@@ -60,6 +135,8 @@ def exampleSnd : Snd :=
    [1, 2, 3, 4, 5, 6, 7, 8], [0xEE]⟩
 
 example : Valid exampleSnd := by decide
+
+example : ∃ r, soundHeaderL St.init (headerOffset exampleSnd) (encode exampleSnd) = .ok r := ⟨_, rfl⟩
 
 /-- **decode (encode s) = what the header says**, for EVERY valid resource: either format, any number of data-type
     records and leading null commands (with any parameters), bufferCmd or soundCmd, standard or extended header,
